@@ -239,9 +239,13 @@ class FuncAnalysis:
       t = st.target
       if isinstance(t, ast.Name):
         cur = self.env.get(t.id, frozenset())
-        if t.id not in self.immutable:
+        # `x += <number/str>` rebinds an immutable; only container operands
+        # (lists, sets, arrays) are updated in place
+        if t.id not in self.immutable and not _scalar_like(st.value):
           self.mutate(cur, (), st, f'{ast.unparse(st)[:60]} (in-place operator)')
           self.env[t.id] = cur | wrap(v, '*')
+        elif _scalar_like(st.value):
+          self.env[t.id] = frozenset()
       else:
         obj = self.expr(t)
         self.mutate(obj, (), st, f'{ast.unparse(st)[:60]} (in-place operator)')
@@ -520,8 +524,12 @@ class FuncAnalysis:
         self.mutate(recv, (), c, f'{fname}(...)')
         if attr in STORING_MUTATORS:
           stored = frozenset()
-          for v in argvals:
-            stored |= v if attr in ('extend', 'update') else wrap(v, '*') if False else v
+          # only VALUES become elements; keys / positions do not
+          vals = argvals
+          if attr in ('setdefault', 'insert'):
+            vals = argvals[1:]
+          for v in vals:
+            stored |= v
           if attr in ('extend', 'update'):
             stored = read(stored, '*') | stored
           self.store_alias(c.func.value, recv, '*', stored)
@@ -656,6 +664,22 @@ class FuncAnalysis:
     for r in s.ret:
       out |= translate(r)
     return out
+
+
+def _scalar_like(e) -> bool:
+  if isinstance(e, ast.Constant):
+    return isinstance(e.value, (int, float, str, bytes, bool))
+  if isinstance(e, ast.JoinedStr):
+    return True
+  if isinstance(e, ast.Attribute) and e.attr in ('ndim', 'size', 'num_bits', 'itemsize', 'nbytes'):
+    return True
+  if isinstance(e, ast.Call) and ast.unparse(e.func) in ('len', 'int', 'float', 'str', 'abs', 'round', 'min', 'max', 'sum'):
+    return True
+  if isinstance(e, ast.BinOp):
+    return _scalar_like(e.left) and _scalar_like(e.right)
+  if isinstance(e, ast.UnaryOp):
+    return _scalar_like(e.operand)
+  return False
 
 
 def get(ctx) -> Effects:
